@@ -255,14 +255,17 @@ func c27Run(f []string) string {
 		}
 		sort.Strings(vars)
 		e := hexs(strings.Join(vars, "\x00"))
-		if tagVars < len(selfTags) {
-			e = "*" // two tags collapsed into one variable name: the survivor depends on map order
-		}
+		// when two tags collapse into one variable name the survivor depends on map order: the checker allows for it
 		sb, _ := os.ReadFile(filepath.Join(dir, fmt.Sprintf("stdin.%d", i)))
 		s := hexb(sb)
 		// every script sees the same environment; its stdin may differ in the order of a member's
 		// tags (map iteration per invocation): the first script's stdin is reported
-		if env != "-" && (env != e || len(stdin) != len(s)) {
+		// (when two tags collapse into one variable the surviving value may differ between invocations:
+		// only the number of variables is compared then)
+		if env != "-" && (strings.Count(env, "00") != strings.Count(e, "00") && len(env) != len(e) || len(stdin) != len(s)) {
+			same = false
+		}
+		if env != "-" && env != e && tagVars >= len(selfTags) {
 			same = false
 		}
 		if env == "-" {
@@ -280,6 +283,9 @@ func c27Run(f []string) string {
 			resp = "toolarge"
 		} else {
 			wait := 200 * time.Millisecond
+			if exit == 0 && strings.Join(runs, "") != strings.Repeat("0", len(runs)) {
+				wait = 1500 * time.Millisecond // a script ran successfully without output: make sure nothing is sent
+			}
 			if olen > 0 && exit == 0 && strings.Join(runs, "") != strings.Repeat("0", len(runs)) {
 				wait = 20 * time.Second // a response is on its way over loopback UDP
 			}
@@ -288,7 +294,7 @@ func c27Run(f []string) string {
 				if ok {
 					resp = hexb(r.Payload)
 					if len(r.Payload) == 0 {
-						resp = "empty"
+						resp = "-" // an empty response was sent
 					}
 				}
 			case <-time.After(wait):
@@ -441,6 +447,7 @@ func c27Gen(rng *rand.Rand, tier string) []Case {
 		{"run " + hexs("user:deploy:prod") + "," + hexs("user:deploy") + "," + hexs("user:deploy:prod,query:deploy:prod") + " " + hexs("n") + " _ u/" + hexs("deploy:prod") + "/3/" + hexs("p") + " 0 1 0 1024"},
 		{"run " + hexs("user:deploy:prod") + "," + hexs("user:deploy") + " " + hexs("n") + " _ u/" + hexs("deploy") + "/4/- 0 1 0 1024"},
 		{"run " + hexs("query:a:b:c") + "," + hexs("query:a") + "," + hexs("query::") + " " + hexs("n") + " _ q/" + hexs("a:b:c") + "/- 3 1 0 1024"},
+		{"run " + hexs("*") + "," + hexs("query:load") + " " + hexs("n") + " " + c30ShowTags(map[string]string{"x.y": "1", "a-b": "2", "a,b": "3"}) + " q/" + hexs("load") + "/" + hexs("p") + " 0 1 0 1024"},
 		{"run " + hexs("user:deploy") + "," + hexs("user") + " " + hexs("n") + " _ u/" + hexs("deploy") + "/18446744073709551615/" + hexs("no newline") + " 0 1 0 1024"},
 		{"run " + hexs("user") + " " + hexs("n") + " _ u/" + hexs("a\x00b") + "/7/" + hexs("p") + " 0 1 0 1024"},
 	}
